@@ -58,9 +58,12 @@ def run(ctx: core.Ctx) -> int:
             "lic": [{"text": "MIT", "tree": {"key": "MIT", "base": "MIT"}}]}
     for j, g in enumerate(rnd.sample(gens, 30 if q else 300)):
         p = json.loads(json.dumps(g["p"]))
-        variant = j % 4
+        variant = j % 5
         excl = ""
-        if variant == 3:       # files without information that only the repository's own exclude list ignores (.git/info/exclude)
+        mono = False
+        if variant == 4:       # the project below the top of a larger work tree, with a registered submodule inside the project
+            gi, raw, mono = "", {}, True
+        elif variant == 3:       # files without information that only the repository's own exclude list ignores (.git/info/exclude)
             p["files"] += [node(["notes.scratch"], "plain", True), node(["src", "debug.scratch"], "plain", True)]
             gi, raw, excl = "", {"notes.scratch": "scratch\n", "src/debug.scratch": "more scratch\n"}, "*.scratch\n"
         elif variant == 0:       # the REUSE.toml itself is ignored; it would annotate a tracked file without information
@@ -78,7 +81,7 @@ def run(ctx: core.Ctx) -> int:
             gi, raw = "vendor/\n", {}
         label = json.dumps({"git-ignored-config": variant, "i1": g["i1"], "i2": g["i2"], "i3": g["i3"], "inv": sorted(g["inv"])})
         cases.append({"tid": len(cases) + 1, "p": p, "checks": ALL, "label": label, "seed": ctx.seed + len(cases), "git": True,
-                      "raw_files": dict(raw, **({".gitignore": gi} if gi else {})), "git_exclude": excl})
+                      "raw_files": dict(raw, **({".gitignore": gi} if gi else {})), "git_exclude": excl, "git_monorepo": mono})
     for k_, c_ in enumerate(cases):
         if k_ % 3 == 1 and not c_.get("git"):
             c_["twins"] = True
